@@ -394,6 +394,97 @@ Definition run_perspective_fetch (args : list bytes) : bytes :=
   | _ => bs "badargs"
   end.
 
+(* ---- specification oracles for the two fetchers (the accepted-only-if direction of the text) ---- *)
+Definition doc_passes (tbl : list (Z * bytes * bytes * bytes)) (server : bytes) (now : Z) (d : server_keys docT) : bool :=
+  let eds := filter (fun kv => bytes_eqb (algorithm_of (fst kv)) (bs "ed25519")) (sk_verify docT d) in
+  bytes_eqb server (sk_server docT d)
+  && (now <? signed_ms (sk_valid_until docT d) * 1000000)
+  && negb (Nat.eqb (length eds) 0)
+  && forallb (fun kv => Nat.eqb (length (snd kv)) 32
+                        && doc_vj tbl (sk_server docT d) (fst kv) (snd kv) (sk_raw docT d)) eds.
+
+Definition ends_with (suffix s : bytes) : bool := is_prefix (rev suffix) (rev s).
+
+(* an answer only if every response is signed by the notary under an id we hold its key for, and
+   is self-signed with a valid_until_ts after the epoch *)
+Definition prop_perspective_fetch (args : list bytes) : bytes :=
+  match rev args with
+  | obs :: rest =>
+      match rev rest with
+      | cfgb :: raws =>
+          match parse_json cfgb with
+          | None => bs "badconfig"
+          | Some cfg =>
+              if ends_with (bs ";E") obs then bs "ok"
+              else
+                let docs := docs_of cfg raws in
+                let tbl := doc_sig_table cfg in
+                let pname := gs (bs "pname") cfg in
+                let pkeys := flat_map (fun e => match e with JArr [k; key] => [(jsb k, unhex (jsb key))] | _ => [] end)
+                                      (ga (bs "pkeys") cfg) in
+                match idx_list (jget (bs "lookup") cfg) with
+                | None => bs "FAIL answer without a notary response"
+                | Some ix =>
+                    if forallb (fun d => existsb (fun pk => doc_vj tbl pname (fst pk) (snd pk) (sk_raw docT d)) pkeys
+                                         && doc_passes tbl (sk_server docT d) 0 d) (pick_docs docs ix)
+                    then bs "ok" else bs "FAIL accepted a response the notary did not sign or that fails its checks"
+                end
+          end
+      | [] => bs "badargs"
+      end
+  | [] => bs "badargs"
+  end.
+
+(* every key returned for a non-local server is listed by a response for that server (from the
+   server or from it as its own notary) that is self-signed with valid_until_ts after the epoch *)
+Definition prop_direct_fetch (args : list bytes) : bytes :=
+  match rev args with
+  | obs :: rest =>
+      match rev rest with
+      | cfgb :: raws =>
+          match parse_json cfgb with
+          | None => bs "badconfig"
+          | Some cfg =>
+              let docs := docs_of cfg raws in
+              let tbl := doc_sig_table cfg in
+              let locals := map jsb (ga (bs "local") cfg) in
+              let getj := match jget (bs "get") cfg with Some g => g | None => JNull end in
+              let lookj := match jget (bs "lookup") cfg with Some g => g | None => JNull end in
+              let candidates := fun server =>
+                (match jget server getj with
+                 | Some (JNum r) => match nth_error docs (Z.to_nat (jz (JNum r))) with Some d => [d] | None => [] end
+                 | _ => [] end)
+                ++ (match idx_list (jget server lookj) with Some ix => pick_docs docs ix | None => [] end) in
+              match split_at 91%N obs with       (* the result list starts at the first bracket *)
+              | None => bs "FAIL no result"
+              | Some (_, tail) =>
+                  match parse_json (91%N :: tail) with
+                  | Some (JArr rows) =>
+                      if forallb (fun row =>
+                           match row with
+                           | JArr [s; k; key; e; v] =>
+                               if mem_bytes (jsb s) locals then
+                                 bytes_eqb (jsb key) (gs (bs "localkey") cfg) && (jz e =? 0)
+                               else
+                                 existsb (fun d =>
+                                   doc_passes tbl (jsb s) 0 d
+                                   && (existsb (fun kv => bytes_eqb (fst kv) (jsb k) && bytes_eqb (hex_of_bytes (snd kv)) (jsb key)
+                                                          && (jz v =? sk_valid_until docT d) && (jz e =? 0)) (sk_verify docT d)
+                                       || existsb (fun kv => bytes_eqb (fst kv) (jsb k) && bytes_eqb (hex_of_bytes (fst (snd kv))) (jsb key)
+                                                             && (jz e =? snd (snd kv)) && (jz v =? 0)) (sk_old docT d)))
+                                   (candidates (jsb s))
+                           | _ => false
+                           end) rows
+                      then bs "ok" else bs "FAIL returned a key no checked response lists"
+                  | _ => bs "FAIL unreadable result"
+                  end
+              end
+          end
+      | [] => bs "badargs"
+      end
+  | [] => bs "badargs"
+  end.
+
 Definition ops_C12 : list (bytes * (list bytes -> bytes)) :=
   [ (bs "C12.verify_jsons", run_verify_jsons);
     (bs "C12.was_valid_at", run_was_valid_at);
@@ -402,5 +493,7 @@ Definition ops_C12 : list (bytes * (list bytes -> bytes)) :=
     (bs "C12.direct_fetch", run_direct_fetch);
     (bs "C12.perspective_fetch", run_perspective_fetch);
     (bs "C12.prop.check_keys", prop_check_keys);
+    (bs "C12.prop.perspective_fetch", prop_perspective_fetch);
+    (bs "C12.prop.direct_fetch", prop_direct_fetch);
     (bs "C12.prop.was_valid_at", prop_was_valid_at);
     (bs "C12.prop.verify_jsons", prop_verify_jsons) ].
